@@ -15,6 +15,8 @@ Formula trees (nested lists):
 """
 from lib import *
 
+torch.set_num_threads(1)   # the tensors are tiny (2 x 2 x .. x 2); intra-op threads only add contention
+
 HELPERS = ("all", "any", "none", "one", "presence", "absence")
 BIN = ("and", "or", "xor")
 
@@ -194,6 +196,12 @@ def est_rank(f, N):
     raise ValueError(op)
 
 
+def pair_rank(f, g, N):
+    """rank bound of the largest tensor the binary predicates / connectives build for the pair"""
+    a, b = est_rank(f, N), est_rank(g, N)
+    return max(a * (b + 1), b * (a + 1), a + b + a * b)
+
+
 def has_node(f, pred):
     if pred(f):
         return True
@@ -212,6 +220,20 @@ def is_rounded(f):
 def one_partial(f, N):
     """contains tn.one restricted to a strict subset of the symbols"""
     return has_node(f, lambda g: g[0] == "one" and g[1] is not None and set(g[1]) != set(range(N)))
+
+
+def syn_symbols(f, N):
+    """symbols that occur syntactically in the tree"""
+    op = f[0]
+    if op == "sym":
+        return {f[1]}
+    if op in HELPERS:
+        return set(_wset(N, f[1]))
+    out = set()
+    for x in f[1:]:
+        if isinstance(x, list) and x and isinstance(x[0], str):
+            out |= syn_symbols(x, N)
+    return out
 
 
 def add_rounds(f, rng, p=1.0, kinds=("round",)):
@@ -300,7 +322,7 @@ def bounded_tree(rng, N, d, bound, only_ok=False):
 
 # --------------------------------------------------------------------------- the property
 
-ALL_OBS = ["table", "pred", "relevant"]
+MIX = ("round", "round_tt", "round_tt")    # tn.round is ~5x the cost of tn.round_tt: one node in three
 RANK_BOUND = 300      # single formula
 PAIR_BOUND = 600      # rank of t1 & ~t2
 
@@ -328,38 +350,41 @@ class Prop:
     THEOREMS = []
 
     # ---------------------------------------------------------------- generation
-    def _root_tucker(self, N, f):
-        """does the implementation's tensor for f carry Tucker factors?  (tag for the known-findings matcher:
-        relevant_symbols ignores factor matrices)"""
-        try:
-            t = build(f, N, tn.symbols(N))
-            return any(U is not None for U in t.Us)
-        except Exception:
-            return False
-
     def generate(self, rng, tier):
         quick = tier == "quick"
         cases = []
 
         def mk(N, f, obs, kind, g=None, **tags):
+            # cost guard: no case may build a tensor of rank > RANK_BOUND (PAIR_BOUND for pairs); recompress instead
+            if (g is None and est_rank(f, N) > RANK_BOUND) or (g is not None and pair_rank(f, g, N) > PAIR_BOUND):
+                f = add_rounds(f, rng, 1.0, MIX)
+                g = add_rounds(g, rng, 1.0, MIX) if g is not None else None
+                f = f if is_rounded(f) else ["round_tt", f]
             rounded = is_rounded(f) or (g is not None and is_rounded(g))
             tags.update(kind=kind, N=N, obs="+".join(obs), rounded=rounded,
                         depth=max(depth(f), depth(g) if g is not None else 0),
                         one_partial=one_partial(f, N) or (g is not None and one_partial(g, N)),
                         has_only=has_node(f, lambda x: x[0] == "only"),
-                        root_tucker=(self._root_tucker(N, f) if (rounded and "relevant" in obs) else False))
+                        # inexact arithmetic: recompression, or the scalar 2 of a^b = a+b-2ab (cores scaled by 2^(1/N))
+                        inexact=rounded or (N >= 2 and has_node(f, lambda x: x[0] == "xor")),
+                        # a symbol occurs in the formula but the truth table does not depend on it
+                        syn_irrelevant=bool(syn_symbols(f, N) - set(relevant_of(table(f, N)))),
+                        # rank bound of the largest tensor whose norm / sum a predicate thresholds
+                        pred_rank=(pair_rank(f, g, N) if g is not None else est_rank(f, N) + 1),
+                        # un-recompressed high-rank tensor with inexact cores: tn.norm of a numerically zero tensor
+                        # (sqrt of a cancellation error) approaches the 1e-6 threshold of the predicates
+                        noise_risk=bool(not rounded and N >= 2 and has_node(f, lambda x: x[0] == "xor") and
+                                        (pair_rank(f, g, N) if g is not None else est_rank(f, N) + 1) >= 128),
+                        root_tucker=False)   # set by run(): does the implementation's formula carry Tucker factors
             c = {"N": N, "f": f, "obs": list(obs), "rounded": rounded, "tags": tags}
             if g is not None:
                 c["g"] = g
             cases.append(c)
 
         def single(N, f, kind, **tags):
-            """all observations; rounded formulas get the relevant/only observation as a separate case"""
-            if is_rounded(f):
-                mk(N, f, ["table", "pred"], kind, **tags)
-                mk(N, f, ["relevant"], kind, **tags)
-            else:
-                mk(N, f, ALL_OBS, kind, **tags)
+            """all observations; relevant/irrelevant/only go to a separate case (own known-findings matcher)"""
+            mk(N, f, ["table", "pred"], kind, **tags)
+            mk(N, f, ["relevant"], kind, **tags)
 
         # ---- 1. every Boolean function, four styles, plain and rounded
         def function_cases(N, bits, styles, plain=True):
@@ -368,11 +393,10 @@ class Prop:
                 nsat = sum(bits)
                 if plain and est_rank(f, N) <= RANK_BOUND:
                     single(N, f, "function", style=st, nsat=nsat)
-                fr = add_rounds(f, rng, 1.0, ("round",))
-                if is_rounded(fr):
-                    single(N, fr, "function", style=st, nsat=nsat)
-                else:   # a leaf: round it at the root
-                    single(N, ["round", f], "function", style=st, nsat=nsat)
+                fr = add_rounds(f, rng, 1.0, MIX)
+                if fr[0] != "round":    # tn.round at the root (or of a leaf): the result may carry Tucker factors
+                    fr = ["round", fr[1] if fr[0] == "round_tt" else fr]
+                single(N, fr, "function", style=st, nsat=nsat)
 
         for N in (1, 2) if quick else (1, 2, 3):
             for bits in itertools.product((0, 1), repeat=2 ** N):
@@ -419,10 +443,15 @@ class Prop:
             fns = list(itertools.product((0, 1), repeat=2 ** N))
             for b1 in fns:
                 for b2 in fns:
-                    f = STYLES[rng.choice(st)](N, list(b1)); g = STYLES[rng.choice(st)](N, list(b2))
+                    f, g = f_anf(N, list(b1)), f_anf(N, list(b2))      # fallback: ranks <= 15
+                    for _ in range(8):
+                        f2 = STYLES[rng.choice(st)](N, list(b1)); g2 = STYLES[rng.choice(st)](N, list(b2))
+                        if pair_rank(f2, g2, N) <= PAIR_BOUND:
+                            f, g = f2, g2
+                            break
                     pair(N, f, g, "pair-exhaustive")
                     if not quick or rng.random() < 0.5:
-                        kinds = ("round", "round_tt") if rng.random() < 0.5 else ("round",)
+                        kinds = MIX if rng.random() < 0.7 else ("round",)
                         fr = add_rounds(f, rng, 0.6, kinds); gr = add_rounds(g, rng, 0.6, kinds)
                         if not (is_rounded(fr) or is_rounded(gr)):
                             fr = ["round", fr]
@@ -442,9 +471,8 @@ class Prop:
                 g = ["not", rewrite(f)]; rel = "negation"
             else:
                 g = bounded_tree(rng, N, d, 24); rel = "independent"
-            if rng.random() < 0.4 or est_rank(f, N) * (est_rank(g, N) + 1) > PAIR_BOUND \
-                    or est_rank(g, N) * (est_rank(f, N) + 1) > PAIR_BOUND:
-                kinds = ("round", "round_tt") if rng.random() < 0.4 else ("round",)
+            if rng.random() < 0.4 or pair_rank(f, g, N) > PAIR_BOUND:
+                kinds = MIX if rng.random() < 0.7 else ("round",)
                 f = add_rounds(f, rng, 1.0, kinds); g = add_rounds(g, rng, 1.0, kinds)
                 if not is_rounded(f):
                     f = ["round", f]
@@ -460,8 +488,8 @@ class Prop:
             for _ in range(1500):
                 b1 = rng.choice(fns)
                 b2 = rng.choice(fns) if rng.random() < 0.5 else tuple(x | y for x, y in zip(b1, rng.choice(fns)))
-                f = add_rounds(STYLES[rng.choice(st)](3, list(b1)), rng, 1.0)
-                g = add_rounds(STYLES[rng.choice(st)](3, list(b2)), rng, 1.0)
+                f = add_rounds(STYLES[rng.choice(st)](3, list(b1)), rng, 1.0, MIX)
+                g = add_rounds(STYLES[rng.choice(st)](3, list(b2)), rng, 1.0, MIX)
                 pair(3, f if is_rounded(f) else ["round", f], g if is_rounded(g) else ["round", g], "pair-function")
 
         # ---- 4. seeded trees, plain and with recompression at random nodes
@@ -472,7 +500,7 @@ class Prop:
         for _ in range(130 if quick else 1500):
             N = rng.randint(1, 4)
             f = bounded_tree(rng, N, rng.randint(1, 5), 4000)
-            kinds = rng.choice([("round",), ("round_tt",), ("round", "round_tt")])
+            kinds = rng.choice([("round",), ("round_tt",), MIX, MIX])
             fr = add_rounds(f, rng, 1.0 if est_rank(f, N) > RANK_BOUND else rng.choice([0.3, 0.6, 1.0]), kinds)
             if est_rank(fr, N) > RANK_BOUND:
                 fr = add_rounds(f, rng, 1.0, kinds)
@@ -484,7 +512,7 @@ class Prop:
         for _ in range(40 if quick else 400):
             N = rng.randint(1, 4)
             f = bounded_tree(rng, N, rng.randint(1, 3), 12)
-            fr = add_rounds(f, rng, 1.0, ("round",))
+            fr = add_rounds(f, rng, 1.0, rng.choice([("round",), MIX]))
             if not is_rounded(fr):
                 fr = ["round", fr]
             z = ["xor", fr, f]
@@ -499,6 +527,10 @@ class Prop:
             syms = tn.symbols(N)
             t = build(case["f"], N, syms)
             out = {"ok": True}
+            if "relevant" in case["obs"]:
+                # descriptive tag for the known-findings matcher (check.py reads the tags after run()): Tucker factors
+                # exist only after tn.round, and whether it creates them depends on the numerical error it reached
+                case.setdefault("tags", {})["root_tucker"] = bool(any(U is not None for U in t.Us))
             dense = lambda x: x.torch().detach().double().reshape(-1).tolist()
             for o in case["obs"]:
                 if o == "table":
@@ -563,9 +595,8 @@ class Prop:
             if len(a) != len(b):
                 return "%s has %d entries, expected %d" % (key, len(a), len(b))
             if rounded:
-                d = max([abs(x - y) for x, y in zip(a, b)] or [0.0])
-                if not d <= 1e-6:
-                    return "%s differs from the truth table by %g" % (key, d)
+                if not close(a, b, 1e-6):
+                    return "%s %s differs from the truth table %s" % (key, a[:16], b[:16])
             elif canon_dense(a) != b:
                 return "%s %s is not the truth table %s" % (key, a[:16], b[:16])
             return None
@@ -579,7 +610,7 @@ class Prop:
             return False, "shape %s, expected %s" % (res["shape"], exp["shape"])
         if "sum" in exp:
             s = res["sum"]
-            if (rounded and not abs(s - exp["sum"]) <= 1e-6) or (not rounded and canon_int(s) != exp["sum"]):
+            if (rounded and not close([s], [exp["sum"]], 1e-6)) or (not rounded and canon_int(s) != exp["sum"]):
                 return False, "sum %r, but the formula has %d satisfying assignments" % (s, exp["sum"])
         for key in ("taut", "contr", "sat", "implies", "implies_rev", "equiv"):
             if key in exp and res[key] != exp[key]:
